@@ -326,8 +326,8 @@ Proof.
   destruct HI. constructor; flds; auto.
   - lia.
   - destruct i_bc. split; lia.
-  - unfold nsec, ntok_items, ntok_todo in *. flds. rewrite T in i_tok. cbn [cnt is_tok_op is_tok_item itask] in *.
-    rewrite CS. lia.
+  - unfold nsec, ntok_items, ntok_todo in *. flds. rewrite T in i_tok. cbn [cnt is_tok_op] in *.
+    change (is_tok_item {| iseq := nseq s; itask := t |}) with (ttok t). rewrite CS. lia.
   - intros _ U. destruct (WK U) as (U0 & K1). specialize (i_wake C U0). cbn [length]. lia.
   - discriminate.
   - cbn [sumsz itask]. lia.
